@@ -180,6 +180,37 @@ def case_condensed(kind, fam, rep):
             run.compare("reduced.condensed", "kind=%s clause=volume-ratio" % kind, maxabs(s1.results.state.J - J3), 1e-8,
                         "%s: volume ratios differ" % label, unit="condensed:J:" + kind, config=(kind, fam, "J"))
             run.units["condensed:bulk:%d" % int(np.log10(bulk))] += 1
+            # state of the condensed body: volume ratio = current / undeformed cell volume (oracle side), p = bulk (J - 1)
+            reg1 = f1.region
+            Fq = r1.x.extract()[0]
+            detF = np.linalg.det(np.moveaxis(Fq, (0, 1), (-2, -1)))
+            w = reg1.dV * (2 * np.pi * f1[0].radius if kind == "axisymmetric" else 1.0)
+            Jref = (detF * w).sum(0) / w.sum(0)
+            run.compare("reduced.condensed", "kind=%s clause=state-volume-ratio" % kind, maxabs(s1.results.state.J - Jref), 1e-8,
+                        "%s: stored volume ratio of the condensed body is not current / undeformed cell volume" % label, unit="condensed:state:" + kind)
+            run.compare("reduced.condensed", "kind=%s clause=state-pressure" % kind, maxabs(s1.results.state.p - bulk * (Jref - 1)) / bulk, 1e-8,
+                        "%s: stored pressure of the condensed body is not bulk (J - 1)" % label, unit="condensed:state:" + kind)
+            # restart: a *new* condensed body created on the converged (deformed) field, loaded further, vs the explicit form
+            move2 = 1.4 * move
+            b1["move"].update(move2)
+            b3["move"].update(move2)
+            s1b = fem.SolidBodyNearlyIncompressible(fem.NeoHooke(mu=mu), f1, bulk=bulk)
+            d0, d1 = fem.dof.partition(f1, b1)
+            e0 = fem.dof.apply(f1, b1, d0)
+            d03, d13 = fem.dof.partition(f3, b3)
+            e03 = fem.dof.apply(f3, b3, d03)
+            try:
+                q1 = fem.newtonrhapson(items=[s1b], dof0=d0, dof1=d1, ext0=e0, verbose=False, tol=1e-11)
+                q3 = fem.newtonrhapson(items=[s3], dof0=d03, dof1=d13, ext0=e03, verbose=False, tol=1e-11)
+            except ValueError:
+                run.skip("reduced.condensed", "restart step did not converge")
+                return
+            us = max(maxabs(q3.x[0].values), 1e-300)
+            run.compare("reduced.condensed", "kind=%s clause=restart-displacement" % kind, maxabs(q1.x[0].values - q3.x[0].values) / us, 1e-7,
+                        "%s: a condensed body created on the deformed field (restart) converges to other displacements than the three-field form" % label,
+                        unit="condensed:restart:" + kind, config=(kind, fam, "restart"))
+            run.compare("reduced.condensed", "kind=%s clause=restart-volume-ratio" % kind, maxabs(s1b.results.state.J - q3.x[2].values.ravel()), 1e-8,
+                        "%s: restart: volume ratios differ" % label, unit="condensed:restart:" + kind)
         finally:
             attach.detach_all()
     return fn
@@ -236,7 +267,7 @@ SPEC = {
     "required_units": ["planestrain:force:quad", "planestrain:force:quad8", "planestrain:force:quad9", "planestrain:stiffness:quad",
                        "planestrain:stiffness:quad8", "planestrain:stiffness:quad9", "axisymmetric:energy:quad", "axisymmetric:energy:quad8",
                        "axisymmetric:energy:triangle", "axisymmetric:revolve-convergence", "condensed:u:3d", "condensed:u:planestrain",
-                       "condensed:u:axisymmetric", "condensed:p:3d", "condensed:J:3d", "condensed:bulk:1", "condensed:bulk:2", "condensed:bulk:3",
+                       "condensed:u:axisymmetric", "condensed:p:3d", "condensed:J:3d", "condensed:bulk:1", "condensed:bulk:2", "condensed:bulk:3", "condensed:state:3d", "condensed:restart:3d", "condensed:restart:axisymmetric",
                        "uniform:vector", "uniform:matrix"],
     "rule": ("quad4/8/9 ~ hex8/20/27 pairs on undistorted / in-plane distorted / affine meshes with smooth random in-plane states and 4 "
              "materials; axisymmetric forces vs central differences of the oracle-side revolved strain energy on 5 families and vs 360-degree "
